@@ -627,8 +627,12 @@ class SegmentReader(IndexReader):
 
         # Get subreaders from codec
         self._codec = codec if codec else segment.codec()
-        self._terms = self._codec.terms_reader(self._storage, segment)
+        # The per-document reader of a loose segment finds its files in the
+        # directory listing; the terms reader opens files by name afterwards,
+        # so a segment whose files a concurrent commit has deleted fails here
+        # (and FileIndex.reader() re-reads the TOC) instead of coming up empty
         self._perdoc = self._codec.per_document_reader(self._storage, segment)
+        self._terms = self._codec.terms_reader(self._storage, segment)
 
     def codec(self):
         return self._codec
